@@ -434,6 +434,100 @@ theorem C07_breakLongStr_chars_partial (st : PState) (s : List Char) :
   · rw [text_raw, payload_append, payload_breakPieces, C07_splitDots_flatten]
     simp [payload, isSepChar]
 
+/-! ### `breakLongStr`, exact form (every character tracked, apostrophes, blanks and `+` included) -/
+
+/-- separators put in front of the pieces -/
+def weave : List (List Char) → List (List Char) → List Char
+  | s :: ss, p :: ps => s ++ p ++ weave ss ps
+  | _, _ => []
+
+theorem raw_indent2 (st : PState) (s : List Char) : (raw st s).indent2 = st.indent2 := by simp [raw, emit]
+
+theorem maybeBreak_false (st : PState) (len : Nat) :
+    ∃ sep, (sep = [] ∨ sep = breakSep st.indent2) ∧ (maybeBreak st len false).text = st.text ++ sep
+      ∧ (maybeBreak st len false).indent2 = st.indent2 := by
+  unfold maybeBreak
+  split
+  · exact ⟨breakSep st.indent2, Or.inr rfl, by simp [text_raw], by simp [raw_indent2]⟩
+  · exact ⟨[], Or.inl rfl, by simp, by simp⟩
+
+theorem maybeBreak_true (st : PState) (len : Nat) :
+    ∃ sep, (sep = ['\''] ∨ sep = [' ', '\''] ∨ sep = breakSepFirst st.indent2) ∧ (maybeBreak st len true).text = st.text ++ sep
+      ∧ (maybeBreak st len true).indent2 = st.indent2 := by
+  unfold maybeBreak
+  split
+  · exact ⟨breakSepFirst st.indent2, Or.inr (Or.inr rfl), by simp [text_raw], by simp [raw_indent2]⟩
+  · by_cases h : st.spaceLast = true
+    · exact ⟨['\''], Or.inl rfl, by simp [text_raw, h], by simp [raw_indent2]⟩
+    · exact ⟨[' ', '\''], Or.inr (Or.inl rfl), by simp [text_raw, h], by simp [raw_indent2]⟩
+
+theorem breakPieces_weave : ∀ (ps : List (List Char)) (st : PState),
+    ∃ seps : List (List Char), seps.length = ps.length ∧ (∀ x ∈ seps, x = [] ∨ x = breakSep st.indent2)
+      ∧ (breakPieces st ps false).text = st.text ++ weave seps ps := by
+  intro ps
+  induction ps with
+  | nil => intro st; exact ⟨[], rfl, by simp, by simp [breakPieces, weave]⟩
+  | cons p ps ih =>
+    intro st
+    obtain ⟨sep, hsep, htext, hind⟩ := maybeBreak_false st p.length
+    obtain ⟨seps, hlen, hall, ht⟩ := ih (raw (maybeBreak st p.length false) p)
+    refine ⟨sep :: seps, by simp [hlen], ?_, ?_⟩
+    · intro x hx
+      rcases List.mem_cons.mp hx with rfl | hx
+      · exact hsep
+      · have := hall x hx
+        rwa [raw_indent2, hind] at this
+    · simp only [breakPieces, ht, text_raw, htext, weave, List.append_assoc]
+
+theorem splitDots_eq_nil (s : List Char) (h : splitDots s = []) : s = [] := by
+  have := C07_splitDots_flatten s
+  rw [h] at this
+  simpa using this.symm
+
+/-- `breakLongStr`, for every state (line length, indent, position) and every string, character for character:
+either the literal is printed in one piece `'…'` (after at most one blank), or the text is the doubled-apostrophe form of the
+string cut at `nextBreakpoint`'s piece boundaries with, in front of each piece, nothing or exactly the separator
+`'` newline indent `+ '` (in front of the first piece: the opening apostrophe, possibly after a blank or the newline+indent),
+and `' ` at the end.  No character of the string is lost, duplicated or altered, wherever the breaks fall. -/
+theorem C07_breakLongStr_exact (st : PState) (s : List Char) :
+    (∃ lead, (lead = [] ∨ lead = [' ']) ∧ (breakLongStr st s).text = st.text ++ lead ++ ['\''] ++ escQ s ++ ['\''])
+    ∨ (∃ first seps, (first = ['\''] ∨ first = [' ', '\''] ∨ first = breakSepFirst st.indent2)
+        ∧ (first :: seps).length = (splitDots (escQ s)).length
+        ∧ (∀ x ∈ seps, x = [] ∨ x = breakSep st.indent2)
+        ∧ (breakLongStr st s).text = st.text ++ weave (first :: seps) (splitDots (escQ s)) ++ ['\'', ' ']) := by
+  unfold breakLongStr
+  simp only []
+  split
+  · left
+    by_cases h : st.spaceLast = true
+    · exact ⟨[], Or.inl rfl, by simp [text_raw, h]⟩
+    · exact ⟨[' '], Or.inr rfl, by simp [text_raw, h]⟩
+  · rename_i hlong
+    right
+    cases hp : splitDots (escQ s) with
+    | nil =>
+      have := splitDots_eq_nil _ hp
+      simp [this] at hlong
+    | cons p ps =>
+      obtain ⟨first, hfirst, htext, hind⟩ := maybeBreak_true st p.length
+      obtain ⟨seps, hlen, hall, ht⟩ := breakPieces_weave ps (raw (maybeBreak st p.length true) p)
+      refine ⟨first, seps, hfirst, by simp [hlen], ?_, ?_⟩
+      · intro x hx
+        have := hall x hx
+        rwa [raw_indent2, hind] at this
+      · simp only [breakPieces, text_raw, ht, htext, weave, List.append_assoc]
+
+/-- the pieces woven with empty separators are the string itself: dropping the separators of `C07_breakLongStr_exact`
+gives back the (apostrophe-doubled) literal, whose scanner value is the source string (`C07_string_roundtrip`) -/
+theorem C07_weave_value (seps ps : List (List Char)) (h : seps.length = ps.length) :
+    weave (seps.map fun _ => []) ps = ps.flatten := by
+  induction ps generalizing seps with
+  | nil => cases seps <;> simp [weave]
+  | cons p ps ih =>
+    cases seps with
+    | nil => simp at h
+    | cons x xs => simp [weave, ih xs (by simpa using h)]
+
 /-- hypotheses are satisfiable / the engine really breaks lines: width 10, continuation indent 4 -/
 example : (run { linelen := 10, indent2 := 4, curpos := 9 } [W "abc", R " ", W "+", W " ", W "de"]).text
     = "\n    abc + \n    de".toList := by decide
